@@ -1,14 +1,20 @@
 """RULE-OWNER: each produced file gets exactly one producing rule.
 
- * only `Makefile.rule` appends to `_rules`, only `NinjaFile.build` to
-   `_builds`; the sets they consult (`_targets`, `_build_outputs`) are written
-   nowhere else;
- * in both, for every target, a duplicate test with a `raise` dominates the
-   registration of the name and the append of the rule (CFG dominance).
+ * only `Makefile.rule` / `NinjaFile.build` (and private helpers called only
+   from them) register rules: the list (`_rules` / `_builds`) and the set of
+   claimed names (`_targets` / `_build_outputs`) are written nowhere else;
+ * for every target the name is claimed (added to the set) only after the
+   duplicate test (`has_rule` / `has_build`, which answers from the same
+   set) was false for the *same* name, under no other condition, in a loop
+   over all targets, with a `raise` for the positive case; the rule is
+   appended only after the claims.
+
+All of it as effect / guard facts (sa/facts.py): the registration may live in
+the method itself or in a helper it calls.
 """
 import ast
 
-from ..cfg import build as build_cfg
+from ..facts import Facts, direct, has, has_call, param_of
 from ..index import AnalysisError, unparse, walk_no_nested
 from .. import query as Q
 
@@ -23,20 +29,31 @@ SPECS = [
 ]
 
 
-def _mentions(node, names):
-    for n in ast.walk(node):
-        if isinstance(n, ast.Attribute) and n.attr in names:
-            return True
-    return False
+def _facts(ctx):
+    f = getattr(ctx, '_facts', None)
+    if f is None:
+        f = ctx._facts = Facts(ctx.repo)
+    return f
+
+
+def _path_leaves(F, e):
+    """Guard leaves along the whole call path of an effect."""
+    out = []
+    for fn, node in e.path:
+        out += F.guard_leaves(node, fn)
+    return out
 
 
 def check(ctx):
     repo = ctx.repo
-    ctx.rule(RULE, 'only Makefile.rule / NinjaFile.build register rules; a '
-             'duplicate-target test with raise dominates registration')
+    F = _facts(ctx)
+    ctx.rule(RULE, 'only Makefile.rule / NinjaFile.build (and their private '
+             'helpers) register rules; a name is claimed only after the '
+             'duplicate test failed for that name, unconditionally, for '
+             'every target; the positive case raises')
     for cls_fq, meth, lst, st, test in SPECS:
         ci = repo.cls(cls_fq)
-        f = repo.method(cls_fq, meth)
+        f = F.fn(cls_fq + '.' + meth)
         short = ci.name + '.' + meth
         # who may write
         for attr in (lst, st):
@@ -45,143 +62,131 @@ def check(ctx):
             for m, node, kind in muts:
                 fn = repo.enclosing_func(node)
                 owner = repo.enclosing_class(node)
-                ok = (owner is not None and owner.is_subclass_of(cls_fq) and
-                      fn is not None and fn.node.name in ('__init__', meth))
+                ok = owner is not None and owner.is_subclass_of(cls_fq) and \
+                    fn is not None and (
+                        fn.node.name == '__init__' or
+                        F.only_called_from(fn, {f.fq}))
                 if (attr == '_rules' and owner is not None and
                         owner.fq.endswith(':NinjaFile')):
                     # NinjaFile._rules is the (unrelated) rule-name table,
-                    # covered by the ninja-rule-unique instances below
-                    ok = fn is not None and fn.node.name in ('__init__',
-                                                             'rule')
-                ctx.ob(RULE, 'writer|{}|{}|{}'.format(
-                    attr, fn.fq if fn else m.name, kind), ok, node,
+                    # covered by the ninja-rule-unique instance below
+                    ok = fn is not None and (
+                        fn.node.name == '__init__' or F.only_called_from(
+                            fn, {owner.fq + '.rule'}))
+                ctx.ob(RULE, 'writer|{}|{}'.format(
+                    attr, 'in-registering-method' if ok else
+                    (fn.fq if fn else m.name)), ok, node,
                     '{} is written outside {}.__init__/{}: {}'.format(
                         attr, ci.name, meth, unparse(node)[:80]))
-        # dominance inside the registering method
-        g = build_cfg(f.node)
-        appends = [c for c in Q.calls(f.node, nested=False)
-                   if isinstance(c.func, ast.Attribute) and
-                   c.func.attr in ('append', 'extend', 'insert') and
-                   isinstance(c.func.value, ast.Attribute) and
-                   c.func.value.attr == lst]
-        adds = [c for c in Q.calls(f.node, nested=False)
-                if isinstance(c.func, ast.Attribute) and
-                c.func.attr in ('add', 'update') and
-                isinstance(c.func.value, ast.Attribute) and
-                c.func.value.attr == st]
-        Q.require(appends, '{}: no append to {}'.format(short, lst))
-        Q.require(adds, '{}: no add to {}'.format(short, st))
-        # guard = If whose test consults the set (directly or via has_*) and
-        # whose body raises unconditionally
-        guards = []
-        for n in walk_no_nested(f.node):
-            if isinstance(n, ast.If) and (
-                    _mentions(n.test, {test, st})) and any(
-                        isinstance(s, ast.Raise) for s in n.body):
-                # the test must be positive (`if has_rule(x): raise`)
-                neg = isinstance(n.test, ast.UnaryOp) and isinstance(
-                    n.test.op, ast.Not)
-                if not neg:
-                    guards.append(n)
-        ctx.ob(RULE, 'guard-exists|' + short, bool(guards), f.node,
-               'no `if {}(...): raise` guard in {}'.format(test, short))
-        if not guards:
+        effs = F.effects(f, lambda e: True, depth=2)
+        effs = [e for e in effs if e.fn.cls is not None and
+                e.fn.cls.is_subclass_of(cls_fq)]
+        adds = [e for e in effs if e.name in ('add', 'update') and
+                has(e.recv(), 'self.' + st)]
+        appends = [e for e in effs if e.name in ('append', 'extend',
+                                                 'insert') and
+                   has(e.recv(), 'self.' + lst)]
+        ctx.ob(RULE, 'registers|' + short, bool(adds) and bool(appends),
+               f.node, '{} does not claim the target names / append the '
+               'rule'.format(short))
+        if not adds or not appends:
             continue
         for a in adds:
-            sa_ = g.stmt_of(a)
-            ok = any(g.dominates(gd, sa_) for gd in guards)
-            ctx.ob(RULE, 'guard-dominates-add|{}|{}'.format(
-                short, unparse(a)), ok, a,
-                'registration of the name is not dominated by the '
-                'duplicate test')
-            # registration is unconditional: no path from the duplicate test
-            # back to the loop header (next target) or out of the loop skips
-            # the add
-            for gd in guards:
-                lp = _enclosing_loop(gd, f.node)
-                if lp is None:
+            leaves = _path_leaves(F, a)
+            reg = direct(a.arg(0))
+            dup = []
+            other = []
+            for t, pos, fn_, b_ in leaves:
+                is_test = isinstance(t, ast.Call) and Q.callee_attr(
+                    t) == test or (
+                        isinstance(t, ast.Compare) and isinstance(
+                            t.ops[0], (ast.In, ast.NotIn)) and has(
+                                F.atoms(t.comparators[0], fn_, b_),
+                                'self.' + st))
+                if is_test:
+                    neg = pos if isinstance(t, ast.Compare) and isinstance(
+                        t.ops[0], ast.NotIn) else not pos
+                    arg = t.args[0] if isinstance(t, ast.Call) and t.args \
+                        else (t.left if isinstance(t, ast.Compare) else None)
+                    dup.append((neg, direct(F.atoms(arg, fn_, b_))
+                                if arg is not None else set()))
+                else:
+                    other.append((t, pos))
+            ok = any(neg for neg, a_ in dup)
+            ctx.ob(RULE, 'guard-dominates-add|' + short, ok, a.call,
+                   'the name is claimed without the duplicate test having '
+                   'failed first')
+            ok = any(neg and (a_ & reg) for neg, a_ in dup)
+            ctx.ob(RULE, 'same-name|' + short, ok, a.call,
+                   'the tested name differs from the registered name')
+            # unconditional: besides the duplicate test only guards that
+            # end in a raise for an empty target list are allowed
+            cond = [t for t, pos in other if not has_call(
+                F.atoms(t, a.fn), 'len')]
+            ctx.ob(RULE, 'registration-unconditional|' + short, not cond,
+                   a.call, 'a target can pass the duplicate test without '
+                   'being registered (the add is conditional): a later rule '
+                   'for the same file is then accepted')
+            # in a loop over all targets
+            first_param = Q.params(f.node)[1]
+            loops = [l for l in a.loops() if isinstance(l, ast.For)]
+            ok = bool(loops)
+            if ok:
+                it = F.atoms(loops[-1].iter, a.fn, a.bind)
+                sliced = any(isinstance(n, ast.Subscript) for n in ast.walk(
+                    loops[-1].iter))
+                ok = param_of(it, first_param) and not sliced and not \
+                    has_call(it, 'if')
+            ctx.ob(RULE, 'loop-covers-all|' + short, ok, a.call,
+                   'the names are not claimed in a loop over all of `{}`'
+                   .format(first_param))
+            # the positive case raises
+            raising = False
+            for g in F.reach(f, 2):
+                if g.cls is None or not g.cls.is_subclass_of(cls_fq):
                     continue
-                skip = g.reaches(gd, lp, avoiding={sa_})
-                ctx.ob(RULE, 'registration-unconditional|{}|{}'.format(
-                    short, unparse(a)), not skip, a,
-                    'a target can pass the duplicate test without being '
-                    'registered (the add is conditional): a later rule for '
-                    'the same file is then accepted')
-            # guard and add must be in the same loop over the targets
-            loop_a = _enclosing_loop(a, f.node)
-            ok2 = loop_a is not None and any(
-                _enclosing_loop(gd, f.node) is loop_a for gd in guards)
-            ctx.ob(RULE, 'per-target-loop|{}|{}'.format(short, unparse(a)),
-                   ok2, a, 'duplicate test and registration are not in the '
-                   'same per-target loop')
-            if loop_a is not None:
-                # the loop must range over all targets/outputs: its iterable
-                # is the listified first parameter
-                it = unparse(loop_a.iter)
-                first_param = Q.params(f.node)[1]
-                vals = Q.local_assignments(f.node, it) if isinstance(
-                    loop_a.iter, ast.Name) else []
-                src = ' '.join(unparse(v) for v in vals if v is not None)
-                ok3 = (first_param in it) or (first_param in src)
-                sliced = any(isinstance(n, ast.Subscript)
-                             for n in ast.walk(loop_a.iter)) or any(
-                    v is not None and any(isinstance(n, ast.Subscript)
-                                          for n in ast.walk(v))
-                    for v in vals)
-                ctx.ob(RULE, 'loop-covers-all|' + short, ok3 and not sliced,
-                       loop_a, 'per-target loop does not range over all of '
-                       '`{}`: iterates {}'.format(first_param, it))
+                for n in walk_no_nested(g.node):
+                    if isinstance(n, ast.Raise):
+                        for t, pos, fn_, b_ in F.guard_leaves(n, g):
+                            if pos and isinstance(t, ast.Call) and \
+                                    Q.callee_attr(t) == test:
+                                raising = True
+                            if isinstance(t, ast.Compare) and has(
+                                    F.atoms(t.comparators[0], fn_, b_),
+                                    'self.' + st) and (
+                                        pos == isinstance(t.ops[0], ast.In)):
+                                raising = True
+            ctx.ob(RULE, 'guard-exists|' + short, raising, f.node,
+                   'a second rule for the same file does not raise')
         for ap in appends:
-            sp = g.stmt_of(ap)
-            loops = [_enclosing_loop(gd, f.node) for gd in guards]
-            ok = any(l is not None and g.dominates(l, sp) for l in loops) \
-                or any(g.dominates(gd, sp) for gd in guards)
-            ctx.ob(RULE, 'guard-dominates-append|{}|{}'.format(
-                short, lst), ok, ap,
-                'append to {} is not preceded by the duplicate test'.format(
-                    lst))
-        # the test method answers from the same set
-        tf = repo.method(cls_fq, test)
-        rets = Q.returns(tf.node)
-        ok = len(rets) == 1 and rets[0].value is not None and \
-            isinstance(rets[0].value, ast.Compare) and \
-            isinstance(rets[0].value.ops[0], ast.In) and \
-            _mentions(rets[0].value, {st})
+            ok = all(F.always_before(a, ap) for a in adds)
+            ctx.ob(RULE, 'guard-dominates-append|{}|{}'.format(short, lst),
+                   ok, ap.call, 'the rule is appended before (or without) '
+                   'the duplicate test of its targets')
+        tf = F.fn(cls_fq + '.' + test)
+        ok = False
+        for r in Q.returns(tf.node):
+            v = r.value
+            if isinstance(v, ast.Compare) and isinstance(
+                    v.ops[0], ast.In) and has(
+                        F.atoms(v.comparators[0], tf), 'self.' + st) and \
+                    param_of(F.atoms(v.left, tf), Q.params(tf.node)[1]):
+                ok = True
         ctx.ob(RULE, 'test-reads-set|{}.{}'.format(ci.name, test), ok,
                tf.node, '{} does not answer `name in self.{}`'.format(
                    test, st))
-        # the name tested and the name registered are the same expression
-        for a in adds:
-            if a.args and guards:
-                reg = unparse(a.args[0])
-                tested = set()
-                for gd in guards:
-                    for c in ast.walk(gd.test):
-                        if isinstance(c, ast.Call) and c.args:
-                            tested.add(unparse(c.args[0]))
-                        if isinstance(c, ast.Compare):
-                            tested.add(unparse(c.left))
-                ctx.ob(RULE, 'same-name|' + short, reg in tested, a,
-                       'tested name {} differs from registered name {}'
-                       .format(sorted(tested), reg))
 
     # NinjaFile.rule: rule names unique
-    f = repo.method('bfg9000.backends.ninja.syntax:NinjaFile', 'rule')
-    g = build_cfg(f.node)
-    stores = [n for n in walk_no_nested(f.node)
-              if isinstance(n, ast.Assign) and any(
-                  isinstance(t, ast.Subscript) and isinstance(
-                      t.value, ast.Attribute) and t.value.attr == '_rules'
-                  for t in n.targets)]
-    Q.require(stores, 'NinjaFile.rule: no store into _rules')
-    guards = [n for n in walk_no_nested(f.node)
-              if isinstance(n, ast.If) and _mentions(
-                  n.test, {'has_rule', '_rules'}) and any(
-                      isinstance(s, ast.Raise) for s in n.body)]
-    for s in stores:
-        ctx.ob(RULE, 'ninja-rule-unique', any(
-            g.dominates(gd, s) for gd in guards), s,
-            'store into _rules not dominated by has_rule guard')
+    f = F.fn('bfg9000.backends.ninja.syntax:NinjaFile.rule')
+    sts = [n for t, v, n in F.stores(f) if has(t, 'self._rules')]
+    Q.require(sts, 'NinjaFile.rule: no store into _rules')
+    for s in sts:
+        ok = any(not pos and (isinstance(t, ast.Call) and Q.callee_attr(t)
+                              == 'has_rule' or has(F.atoms(t, fn_, b_),
+                                                   'self._rules'))
+                 for t, pos, fn_, b_ in F.guard_leaves(s, f))
+        ctx.ob(RULE, 'ninja-rule-unique', ok, s,
+               'store into _rules not preceded by a failed has_rule test')
     # builtins never touch the private tables
     for attr in ('_rules', '_builds', '_targets', '_build_outputs'):
         for m in repo.modules.values():
@@ -194,12 +199,3 @@ def check(ctx):
                         'builtin module touches {} directly'.format(attr))
     ctx.ob(RULE, 'no-builtin-access|scan', True, None,
            'scanned bfg9000.builtins.* for direct access')
-
-
-def _enclosing_loop(node, stop):
-    n = getattr(node, '_parent', None)
-    while n is not None and n is not stop:
-        if isinstance(n, (ast.For, ast.While)):
-            return n
-        n = getattr(n, '_parent', None)
-    return None
